@@ -107,7 +107,7 @@ Theorem C17_old_behaviour_refuted :
   (json_wf w_bigkey = true /\ nf Basic w_bigkey = true /\ exists m, j2m cfg_old_key Basic w_bigkey = Ok m /\ m2j Basic m = Err) /\
   (json_wf w_extra = true /\ in_schema Detailed w_extra = false /\ exists m, j2m cfg_old_lenient Detailed w_extra = Ok m) /\
   (pdom_detailed w_extra = false /\ exists p, j2p cfg_old_lenient PDetailed w_extra = Ok p) /\
-  (sf_de_gen true SInt (sf_ser SInt (VNum (- two64Z))) = Err /\ sf_de_gen true SInt (JStr (print_Z i128_min)) = Panic).
+  (sf_de_gen true SInt (sf_ser SInt (SVNum (- two64Z))) = Err /\ sf_de_gen true SInt (JStr (print_Z i128_min)) = Panic).
 Proof.
   destruct old_negmin_refuted as [A B]. split; [exact A|]. split; [exact B|].
   split; [exact old_key_unchecked_refuted|]. split; [exact old_lenient_refuted|].
